@@ -1068,16 +1068,39 @@ class ParseSensitiveHosts(Contract):
 # one definition over name lists of any length; field values carry symbolic run-time type tags.  `str(x).lower() ==
 # "none"` (the any-OS marker) is an ASSUMED function of the string (str_lower); the scenario's names are 0..n-1.
 
-from pyvc.values import intern_name, NONE_ID
+from pyvc.values import intern_name, NONE_ID, EngineLimit
 
 
 def _any_os(code):
     return B.STR_LOWER(code) == intern_name("none")
 
 
+def single_def_spec(d, target_key, nT, nOS):
+    """documented validity of one exploit / escalation definition d (a dict of tagged symbolic values), and the level its
+    access field stands for; None if the dict does not have the five fields as tagged scalars"""
+    try:
+        tgt, os_, prob, cost, acc = d.d[target_key], d.d["os"], d.d["prob"], d.d["cost"], d.d["access"]
+    except KeyError:
+        return None
+    if not all(isinstance(x, SymV) and x.pytag is not None for x in (tgt, os_, prob, cost, acc)):
+        return None
+    num = lambda t: z3.Or(t == B.TAG_INT, t == B.TAG_BOOL, t == B.TAG_FLOAT)
+    user, root = intern_name("user"), intern_name("root")
+    if acc.ty == "name":
+        acc_ok = z3.And(acc.pytag == B.TAG_STR, z3.Or(acc.t == user, acc.t == root))
+        acc_val = z3.If(acc.t == user, 1, 2)
+    else:
+        acc_ok = z3.And(z3.Or(acc.pytag == B.TAG_INT, acc.pytag == B.TAG_BOOL), z3.Or(ival(acc) == 1, ival(acc) == 2))
+        acc_val = ival(acc)
+    spec = z3.And(tgt.pytag == B.TAG_STR, 0 <= tgt.t, tgt.t < nT, os_.pytag == B.TAG_STR,
+                  z3.Or(_any_os(os_.t), z3.And(0 <= os_.t, os_.t < nOS)), num(prob.pytag), 0 <= rval(prob), rval(prob) <= 1,
+                  num(cost.pytag), rval(cost) > 0, acc_ok)
+    return spec, acc_val, z3.If(_any_os(os_.t), z3.IntVal(NONE_ID), os_.t)
+
+
 class _ValidateSingleDef(Contract):
-    callable_by_contract = False
     bounded = False
+    inline_when_concrete = True         # the bounded whole-loader tasks keep executing the real validator
     tags = {"": ("C17", "C18")}
     target_key, target_list = None, None
 
@@ -1093,53 +1116,69 @@ class _ValidateSingleDef(Contract):
         prob, prob_tag = z3.Real("def_prob"), z3.Int("def_prob_type")
         cost, cost_tag = z3.Real("def_cost"), z3.Int("def_cost_type")
         acc, acc_tag = z3.Int("def_access"), z3.Int("def_access_type")
-        num = lambda t: z3.Or(t == B.TAG_INT, t == B.TAG_BOOL, t == B.TAG_FLOAT)
-        user, root = intern_name("user"), intern_name("root")
         # the codes of strings are non-negative (None has its own, negative, code: a YAML null in these fields is a
         # non-string and is covered by the document-level catalogue)
         I.ctx.assume(z3.And(tgt >= 0, os_ >= 0, acc >= 0))
-        # "none" (any case) is not the name of an OS of the scenario, nor are the access words scenario names
-        I.ctx.assume(z3.ForAll([z3.Int("nn")], z3.Implies(z3.And(0 <= z3.Int("nn"), z3.Int("nn") < nOS), z3.Not(_any_os(z3.Int("nn"))))))
+        # "none" (any case) is not the name of an OS of the scenario
+        nn = z3.Int("nn")
+        I.ctx.assume(z3.ForAll([nn], z3.Implies(z3.And(0 <= nn, nn < nOS), z3.Not(_any_os(nn)))))
         if acc_kind == "access-str":
             access = SymV(acc, "name", pytag=acc_tag)
-            acc_ok = z3.And(acc_tag == B.TAG_STR, z3.Or(acc == user, acc == root))
-            acc_val = z3.If(acc == user, 1, 2)
             I.ctx.assume(acc_tag == B.TAG_STR)          # this variant: the access field is some string
         else:
             access = SymV(acc, "int", pytag=acc_tag)
-            acc_ok = z3.And(z3.Or(acc_tag == B.TAG_INT, acc_tag == B.TAG_BOOL), z3.Or(acc == 1, acc == 2))
-            acc_val = acc
             I.ctx.assume(acc_tag != B.TAG_STR)
-        spec = z3.And(tgt_tag == B.TAG_STR, 0 <= tgt, tgt < nT, os_tag == B.TAG_STR,
-                      z3.Or(_any_os(os_), z3.And(0 <= os_, os_ < nOS)), num(prob_tag), 0 <= prob, prob <= 1,
-                      num(cost_tag), cost > 0, acc_ok)
-        if v == "valid":
-            I.ctx.assume(spec)
         d = PyDict({self.target_key: SymV(tgt, "name", pytag=tgt_tag), "os": SymV(os_, "name", pytag=os_tag),
                     "prob": SymV(prob, "real", pytag=prob_tag), "cost": SymV(cost, "real", pytag=cost_tag),
                     "access": access}, fresh=False)
+        spec, acc_val, norm_os = single_def_spec(d, self.target_key, nT, nOS)
+        if v == "valid":
+            I.ctx.assume(spec)
         lo = loader_obj(I, os=names_seq(nOS, "os"), **{self.target_list: names_seq(nT, self.target_list)})
         S = Scope()
-        S.extra.update(variant=v, spec=spec, d=d, os=os_, acc_val=acc_val)
+        S.extra.update(variant=v, spec=spec, d=d, norm_os=norm_os, acc_val=acc_val)
         S.a = {"self": lo}
         S.call_args = ([lo, "e_name", d], {})
         return S
 
     def modifies(self, I, S):
-        return [S.extra["d"]]            # the definition is normalised in place (os -> None, access -> 1 | 2)
+        return [S.extra["d"]] if "d" in S.extra else []            # the definition is normalised in place
 
     def allowed_exception(self, I, S, exc):
         return S.extra["variant"] == "any"
 
     def ensures(self, I, S):
+        if getattr(S, "callsite", False):
+            return []
         d, e = S.extra["d"], S.extra
         os_after, acc_after = d.d.get("os"), d.d.get("access")
-        norm_os = z3.If(_any_os(e["os"]), z3.IntVal(NONE_ID), e["os"])
         return [("C18.accepted-definition-is-valid", e["spec"]),
-                ("C17.os-normalised", nameval(os_after) == norm_os),
+                ("C17.os-normalised", nameval(os_after) == e["norm_os"]),
                 ("C17.access-normalised-to-level", ival(acc_after) == e["acc_val"] if isinstance(acc_after, (SymV, int)) and
                  not isinstance(acc_after, bool) and (not isinstance(acc_after, SymV) or acc_after.ty == "int")
                  else z3.BoolVal(False))]
+
+    # ---- use at a call site (the section loops): exact contract - returns iff the definition is valid, and normalises it
+    def bind(self, I, fi, args, kwargs):
+        return Scope(a=I.bind_params(fi, args, kwargs))
+
+    def havoc(self, I, S):
+        lo = S.a["self"]
+        d = [v for k, v in S.a.items() if k not in ("self",) and isinstance(v, PyDict)]
+        if len(d) != 1:
+            raise EngineLimit("definition handed to the single-definition validator is not a dict")
+        d = d[0]
+        nT = ival(B._len(I, lo.fields[self.target_list]))
+        nOS = ival(B._len(I, lo.fields["os"]))
+        r = single_def_spec(d, self.target_key, nT, nOS)
+        if r is None:
+            raise EngineLimit("definition without tagged fields")
+        spec, acc_val, norm_os = r
+        if not I.ctx.branch(spec):
+            I.raise_("AssertionError")
+        d.d["os"] = mk(norm_os, "name")
+        d.d["access"] = mk(acc_val, "int")
+        return None
 
 
 @contract
@@ -1151,4 +1190,100 @@ class ValidateSingleExploit(_ValidateSingleDef):
 @contract
 class ValidateSinglePrivesc(_ValidateSingleDef):
     qualname = LQ + "_validate_single_privesc"
+    target_key, target_list = "process", "processes"
+
+
+# ---- _validate_exploits / _validate_privescs: a section with any number of definitions, verified MODULARLY against
+# the contract of the single-definition validator (exact: it returns iff the definition is valid)
+
+dk = z3.Function("doc_def_key", I_, I_)                     # j-th key (a name) of the section
+df_t, df_tt = z3.Function("doc_def_target", I_, I_), z3.Function("doc_def_target_type", I_, I_)
+df_o, df_ot = z3.Function("doc_def_os", I_, I_), z3.Function("doc_def_os_type", I_, I_)
+df_p, df_pt = z3.Function("doc_def_prob", I_, R_), z3.Function("doc_def_prob_type", I_, I_)
+df_c, df_ct = z3.Function("doc_def_cost", I_, R_), z3.Function("doc_def_cost_type", I_, I_)
+df_a, df_at = z3.Function("doc_def_access", I_, I_), z3.Function("doc_def_access_type", I_, I_)
+
+
+def section_def(key, target_key, acc_kind):
+    k = nameval(key)
+    return PyDict({target_key: SymV(df_t(k), "name", pytag=df_tt(k)), "os": SymV(df_o(k), "name", pytag=df_ot(k)),
+                   "prob": SymV(df_p(k), "real", pytag=df_pt(k)), "cost": SymV(df_c(k), "real", pytag=df_ct(k)),
+                   "access": SymV(df_a(k), "name" if acc_kind == "access-str" else "int", pytag=df_at(k))}, fresh=False)
+
+
+def section_ok(I, k):
+    e = I.ext_state["sec"]
+    j = z3.Int("sec_j")
+    spec = single_def_spec(section_def(SymV(dk(j), "name"), e["target_key"], e["acc_kind"]), e["target_key"], e["nT"], e["nOS"])[0]
+    return z3.ForAll([j], z3.Implies(z3.And(0 <= j, j < k), spec))
+
+
+class _SectionLoop(LoopContract):
+    ordinal = 0
+    tags = ("C17", "C18")
+
+    def snapshot(self, I, fr, seq):
+        return {}
+
+    def havoc(self, I, fr, entry, seq):
+        for v in loop_assigned(self.st):
+            fr.locals.pop(v, None)
+
+    def inv(self, I, fr, entry, seq, k):
+        return [("earlier-definitions-valid", section_ok(I, k))]
+
+
+@loop_contract
+class ValidateExploitsLoop(_SectionLoop):
+    qualname = LQ + "_validate_exploits"
+
+
+@loop_contract
+class ValidatePrivescsLoop(_SectionLoop):
+    qualname = LQ + "_validate_privescs"
+
+
+class _ValidateSection(_Leaf):
+    target_key, target_list = None, None
+
+    def variants(self):
+        return [f"{v}/{a}" for v in ("valid", "any") for a in ("access-str", "access-int")]
+
+    def setup(self, I, variant):
+        from pyvc.values import SymDict
+        v, acc_kind = variant.split("/")
+        n, nT, nOS = z3.Int("doc_n_defs"), z3.Int("doc_n_targets"), z3.Int("doc_nOS")
+        j, nn = z3.Int("sec_q"), z3.Int("nn")
+        I.ctx.assume(z3.And(n >= 0, nT >= 1, nOS >= 1))
+        I.ctx.assume(z3.ForAll([j], z3.And(df_t(j) >= 0, df_o(j) >= 0, df_a(j) >= 0,
+                                           df_at(j) == B.TAG_STR if acc_kind == "access-str" else df_at(j) != B.TAG_STR)))
+        I.ctx.assume(z3.ForAll([nn], z3.Implies(z3.And(0 <= nn, nn < nOS), z3.Not(_any_os(nn)))))
+        I.ext_state["sec"] = {"target_key": self.target_key, "acc_kind": acc_kind, "nT": nT, "nOS": nOS}
+        keys = SymSeq(n, lambda q: SymV(dk(ival(q)), "name"), "section.keys")
+        sec = SymDict(lambda k: z3.BoolVal(True), lambda k: section_def(k, self.target_key, acc_kind), keys=keys, label="section")
+        spec = section_ok(I, n)
+        if v == "valid":
+            I.ctx.assume(spec)
+        lo = loader_obj(I, os=names_seq(nOS, "os"), **{self.target_list: names_seq(nT, self.target_list)})
+        S = Scope()
+        S.extra.update(variant=v, spec=spec)
+        S.a = {"self": lo}
+        S.call_args = ([lo, sec], {})
+        return S
+
+    def ensures(self, I, S):
+        return [("C18.accepted-section-has-only-valid-definitions", S.extra["spec"])]
+
+
+@contract
+class ValidateExploits(_ValidateSection):
+    """exploits section with any number of definitions (empty allowed): accepted iff every definition is valid"""
+    qualname = LQ + "_validate_exploits"
+    target_key, target_list = "service", "services"
+
+
+@contract
+class ValidatePrivescs(_ValidateSection):
+    """privilege_escalation section with any number of definitions (empty allowed): accepted iff every one is valid"""
+    qualname = LQ + "_validate_privescs"
     target_key, target_list = "process", "processes"
